@@ -662,7 +662,7 @@ func (Area) Exec(input string) string {
 		err := parseErr(f[1])
 		st, hs := webbridge.VerifErrorStatus(err)
 		return fmt.Sprintf("%d %s %s %d", int(st.Code()), common.HexS(st.Message()), lettersOf(statusDetails(st)), hs)
-	case "e2e":
+	case "e2e", "opts":
 		return execIsolated(input) // in a worker subprocess: a runtime fatal error becomes "CRASH …", not a dead harness
 	}
 	return "BADOP"
@@ -981,6 +981,9 @@ var explicitCodes = []int{200, 400, 405, 413, 415, 418, 429, 451, 499, 500, 503,
 
 func (Area) Gen(r *rand.Rand, tier string, emit func(string)) {
 	count := func(k string) { genStats[k]++ }
+	// 0. the root constructor's option plumbing (finite, run completely every time)
+	genOpts(emit, count)
+
 	// 1. the executed table of the third-party runtime.HTTPStatusFromCode
 	for c := 0; c <= 20; c++ {
 		emit(fmt.Sprintf("tbl %d", c))
